@@ -51,6 +51,8 @@ func main() {
 		err = core.RunFamily(core.ListFamily(), w, *seed, *tier, *replay)
 	case "hash":
 		err = core.RunFamily(core.HashFamily(), w, *seed, *tier, *replay)
+	case "set":
+		err = core.RunFamily(core.SetFamily(), w, *seed, *tier, *replay)
 	case "gen-facts":
 		err = core.GenFacts(*leanDir)
 	default:
